@@ -171,6 +171,17 @@ theorem check_is_eighth_root {K : Type*} [Field K] [Fintype K] (h8 : 8 ∣ Finty
   rw [this]
   exact FiniteField.pow_card_sub_one_eq_one a ha
 
+/-- the check value `a^((Q-1)/8)` to the fourth power is Euler's symbol `a^((Q-1)/2)`: it is 1 for squares and -1 for
+    non-squares (Fields.lean euler_isSquare_iff / euler_not_isSquare_iff) -/
+theorem check_pow_four {K : Type*} [Field K] [Fintype K] (h8 : 8 ∣ Fintype.card K - 1) (a : K) :
+    (a ^ ((Fintype.card K - 1) / 8)) ^ 4 = a ^ ((Fintype.card K - 1) / 2) := by
+  obtain ⟨m, hm⟩ := h8
+  have h1 : (Fintype.card K - 1) / 8 = m := by omega
+  have h2 : (Fintype.card K - 1) / 2 = m * 4 := by omega
+  rw [h1, h2, ← pow_mul]
+
+
 #print axioms subgroup_check_exact
+#print axioms check_pow_four
 #print axioms sqrt_div_eta_iff
 #print axioms eighth_root_cases
